@@ -366,6 +366,9 @@ distinct = distinct (cut count, layout seed) and raw values; oracle = fields at 
     // ---- layout, every cut count --------------------------------------------------------------------
     let mut base_msg: Option<Message> = None;
     for rep in 0..reps {
+        if rep % 16 == 1 {
+            crate::props::poison::run(rep as u64);
+        }
         for n in 0..=51usize {
             let spec = gen_vcp(&mut rng, n);
             let body = spec.encode();
